@@ -624,6 +624,8 @@ class EngineWorld:
                     if op == "wait":
                         result = await self._do_wait(s, ctx, ev, rec, act)
                         if result == "__return_none__":
+                            if len(act) > 6 and act[6] == "continue":
+                                continue
                             kind = "returned"
                             return None
             kind = "returned"
@@ -757,7 +759,7 @@ class EngineWorld:
         return {"by": rec["step"], "uid": _hashable(rec["uid"])}
 
     async def _do_wait(self, s: dict, ctx: Context, ev: Any, rec: dict, act: tuple) -> Any:
-        _, tname, req, timeout, waiter_id, ask = act
+        _, tname, req, timeout, waiter_id, ask = act[:6]
         requirements = None
         key = None
         if req:
